@@ -179,19 +179,9 @@ func c18rInBubble(ops []c18rOp, hist []int, transport string) verifx.SearchResul
 			obs = fmt.Sprintf("update->%d", len(reached))
 		}
 		// the server's table mentions no closed session
-		s.mu.Lock()
-		for uri, m := range s.resourceSubscriptions {
-			for ss := range m {
-				for i := range sessions {
-					_ = i
-				}
-				if !slices.ContainsFunc(s.sessions, func(x *ServerSession) bool { return x == ss }) {
-					s.mu.Unlock()
-					return bad("subscription-of-closed-session-kept", "after %s: the subscription table for %s still mentions a session that is gone", where, uri)
-				}
-			}
+		if uri, found, ok := privStaleResourceSubscription(s); ok && found {
+			return bad("subscription-of-closed-session-kept", "after %s: the subscription table for %s still mentions a session that is gone", where, uri)
 		}
-		s.mu.Unlock()
 	}
 	var parts []string
 	for _, u := range []string{"file:///r1", "file:///r2"} {
